@@ -14,6 +14,7 @@ pub fn level_of(prop: &str) -> &'static str {
 }
 
 pub struct Env<'a> {
+    pub part: Option<(usize, usize)>,
     pub seed: u64,
     pub prop: &'a str,
     pub tier: &'a str,
@@ -30,7 +31,7 @@ pub enum Roots {
 
 /// One breadth-first exploration; returns the stored representative histories.
 pub fn bfs(env: &Env, report: &mut Report, prof: &Profile, roots: Roots, depth: usize, props: Props, count_last: bool) -> Vec<Vec<History>> {
-    let ex = Explorer { prof, props, threads: env.threads, findings: env.findings, budget: env.budget, close_rotations: props.c03, seed: env.seed, store_last: count_last && depth <= 4 };
+    let ex = Explorer { prof, props, threads: env.threads, findings: env.findings, budget: env.budget, close_rotations: props.c03, seed: env.seed, store_last: count_last && depth <= 4, part: env.part };
     let (r, name) = match roots {
         Roots::Empty => (vec![vec![]], "empty pool".to_string()),
         Roots::Seeds => {
@@ -50,7 +51,7 @@ pub fn bfs(env: &Env, report: &mut Report, prof: &Profile, roots: Roots, depth: 
 fn determinism_selfcheck(env: &Env, report: &mut Report, prof: &Profile, depth: usize) {
     let run = |threads: usize, seed: u64| {
         let scratch = Findings::default();
-        let ex = Explorer { prof, props: Props::default(), threads, findings: &scratch, budget: env.budget, close_rotations: false, seed, store_last: false };
+        let ex = Explorer { prof, props: Props::default(), threads, findings: &scratch, budget: env.budget, close_rotations: false, seed, store_last: false, part: None };
         ex.run(vec![vec![]], depth, true).levels.iter().map(|l| (l.new_states, l.transitions, l.digest)).collect::<Vec<_>>()
     };
     let a = run(env.threads, env.seed);
@@ -83,7 +84,11 @@ fn dd(d: usize) -> usize {
 
 pub fn run_property(prop: &str, tier: &str, threads: usize, budget: &Budget, findings: &Findings, report: &mut Report) {
     let seed: u64 = std::env::var("VERIF_SEED").ok().and_then(|s| s.parse().ok()).unwrap_or(0);
-    let env = Env { seed, prop, tier, threads, budget, findings };
+    let part = std::env::var("LSVERIF_PART").ok().and_then(|s| {
+        let (a, b) = s.split_once('/')?;
+        Some((a.parse().ok()?, b.parse().ok()?))
+    });
+    let env = Env { part, seed, prop, tier, threads, budget, findings };
     let quick = tier == "quick";
     common_assumptions(report);
     let props = Props::only(prop);
@@ -94,6 +99,18 @@ pub fn run_property(prop: &str, tier: &str, threads: usize, budget: &Budget, fin
     let inline = profiles::inline_only();
     let index = profiles::index();
     report.bounds.push(format!("texts <= {} bytes before a growing operation; chars a/é/€/😀; inline limit {}", LMAX, INLINE));
+    if std::env::var("LSVERIF_MIRI").is_ok() && prop != "C20" {
+        // Miri-hosted run of any property: the wide graph to the given depth with that
+        // property's oracles (the interpreter is ~10^4 times slower than native code)
+        let d: usize = std::env::var("LSVERIF_DEPTH").ok().and_then(|s| s.parse().ok()).unwrap_or(2);
+        report.rule = format!("Miri-hosted: wide profile to depth {d} with the oracles of {prop}; Miri additionally stops at any undefined behaviour (out-of-bounds or dangling access, aliasing violation, uninitialised read) in the crate");
+        report.bounds.push(format!("target: {} bit, {} endian (executed by Miri)", usize::BITS, if cfg!(target_endian = "big") { "big" } else { "little" }));
+        bfs(&env, report, &wide, Roots::Empty, d, props, true);
+        if env.part.is_none_or(|(k, _)| k == 0) {
+            bfs(&env, report, &wide, Roots::Seeds, 0, props, true);
+        }
+        return;
+    }
     match prop {
         "C01" => {
             report.rule = "every operation history over the profile's alphabet up to the stated depth, executed on the real crate next to a String model; a state is the exact canonical pool (raw inline bytes, whole heap buffers incl. stale tails, capacities, reference counts, sharing graph); distinct = distinct canonical state".into();
@@ -288,11 +305,17 @@ pub fn run_property(prop: &str, tier: &str, threads: usize, budget: &Budget, fin
                     findings.add(&sp, &[], &crate::oracle::Viol { prop: "C20", oracle: "layout", detail: format!("{name} does not hold") }, "layout", "-", name);
                 }
             }
+            let hosted = std::env::var("LSVERIF_MIRI").is_ok();
+            report.bounds.push(format!("target: {} bit, {} endian{}", usize::BITS, if cfg!(target_endian = "big") { "big" } else { "little" }, if hosted { " (executed by Miri)" } else { "" }));
             bfs(&env, report, &wide, Roots::Empty, d, props, true);
-            bfs(&env, report, &wide, Roots::Seeds, 1, props, true);
+            if !hosted || env.part.is_none_or(|(k, _)| k == 0) {
+                bfs(&env, report, &wide, Roots::Seeds, if hosted { 0 } else { 1 }, props, true);
+            }
             let stats = ProbeStats::default();
             let scx = SweepCtx { prof: &sp, findings, stats: &stats };
-            sweeps::c20_sweep(&scx, quick);
+            if !hosted || env.part.is_none_or(|(k, _)| k == 1) {
+                sweeps::c20_sweep(&scx, quick || hosted);
+            }
             report.add_probe(stats.to_json("niche-sweep", 0, true));
         }
         "C18" => {
